@@ -332,6 +332,9 @@ class Interp:
                 pass
             elif p[0] == 'index':
                 idx = fr.cell(p[1]).v; lst = cell.v
+                if isinstance(lst, Agg) and lst.ty == 'Vec': lst = lst.fields[0].v
+                if isinstance(idx, Term): raise Unsupported('symbolic index')
+                if idx >= len(lst): raise Panic('index out of bounds: %d >= %d' % (idx, len(lst)))
                 cell = lst[idx]
             elif p[0] == 'cindex':
                 cell = cell.v[p[1]]
@@ -364,6 +367,8 @@ class Interp:
         m = re.fullmatch(r'(-?[\d.]+(?:[eE][-+]?\d+)?)f(32|64)', s)
         if m: return float(m.group(1))
         if s.startswith('b"'): return s
+        mm = re.fullmatch(r'core::num::<impl ([iu](?:\d+|size))>::(MAX|MIN)', s)
+        if mm: return INT_RANGES[mm.group(1)][1 if mm.group(2) == 'MAX' else 0]
         if s.startswith('"'): return eval(s.replace('\\u{', '\\u{').replace('\n', '\\n')) if '\\u{' not in s else s[1:-1]
         if s.startswith("'"): return eval(s)
         sc = self.simple_consts.get(s) or self.simple_consts.get(s.split('::')[-1])
@@ -386,6 +391,13 @@ class Interp:
         if k == 'unop':
             v = self.operand(fr, rv[2])
             if rv[1] == 'Not': return self.bnot(v) if isinstance(v, (bool, Term)) and (not isinstance(v, Term) or v.sort == 'Bool') else ~v
+            if rv[1] == 'PtrMetadata':
+                w = v
+                while isinstance(w, Ref): w = w.cell.v
+                if isinstance(w, Agg) and w.ty == 'Vec': w = w.fields[0].v
+                if isinstance(w, list): return len(w)
+                if isinstance(w, str): return len(w.encode())
+                raise Unsupported('PtrMetadata of %r' % (w,))
             if rv[1] == 'Neg': return Term("(- %s)" % v.s, 'Int') if isinstance(v, Term) else -v
         if k == 'discr':
             a = self.place_cell(fr, rv[1]).v
@@ -403,6 +415,12 @@ class Interp:
                 return Agg(ty, variant, cells, names)
             return Agg(ty, variant, [Cell(self.operand(fr, o)) for o in fields])
         if k == 'array': return [Cell(self.operand(fr, o)) for o in rv[1]]
+        if k == 'repeat':
+            v = self.operand(fr, rv[1]); n = int(re.match(r'(?:const )?(\d+)', rv[2]).group(1)) if re.match(r'(?:const )?(\d+)', rv[2]) else self.const(rv[2].replace('const ', ''))
+            return [Cell(deep_copy_val(v)) for _ in range(n)]
+        if k == 'len':
+            v = self.place_cell(fr, rv[1]).v
+            return len(v if isinstance(v, list) else v.fields[0].v)
         if k == 'fnptr': return FnPtr(rv[1])
         if k == 'cast':
             v = self.operand(fr, rv[1])
@@ -420,6 +438,9 @@ class Interp:
             return (segs[-2], segs[-1])
         if segs[0] in ('Option', 'std::option::Option') or segs[-2:-1] == ['Option']: return ('Option', segs[-1])
         if segs[-2:-1] == ['Result']: return ('Result', segs[-1])
+        if len(segs) == 1:
+            owners = [t for (t, v) in self.layouts.get('__variants__', set()) if v == segs[0]]
+            if len(owners) == 1: return (owners[0], segs[0])
         return (segs[-1], None)
 
     VARIANT_IDX = {('Option', 'None'): 0, ('Option', 'Some'): 1, ('Result', 'Ok'): 0, ('Result', 'Err'): 1}
@@ -487,6 +508,13 @@ class Interp:
         if m is not None: return m(self, callee, args)
         r = self.resolve(callee)
         if r is not None: return self.call_fn(r, args)
+        m2 = re.match(r'<([A-Z]\w?) as (.+)>(::\w+)$', base)  # DYNDISPATCH
+        if m2 and args:
+            v = args[0]
+            while isinstance(v, Ref): v = v.cell.v
+            if isinstance(v, Agg):
+                r = self.resolve('<%s as %s>%s' % (v.ty, m2.group(2), m2.group(3)))
+                if r is not None: return self.call_fn(r, args)
         raise Unsupported("call " + callee)
 
 def strip_generics(s):
